@@ -271,6 +271,9 @@ class StatRecorder:
         newstat: dict[Path, os.stat_result] = {}
         for rootdir in self.rootdirlist:
             for path in visit_path(rootdir, filter=self.fil, recurse=self.rec):
+                if path in newstat:
+                    # already seen in this poll (overlapping or repeated roots)
+                    continue
                 oldstat = self.statcache.pop(path, None)
                 try:
                     curstat = path.stat()
